@@ -15,7 +15,10 @@ TRUSTED_BASE = [
 
 
 def write(prop_id, tier, seed, level, coverage, assumptions, wall_s, violations):
-    path = os.path.join(repo.VERIF, 'evidence', prop_id + '.json')
+    # evidence/ describes runs against /repo only; a run against a scratch tree (VERIF_REPO, seeded
+    # mutants) writes under .work/ so that it can never be mistaken for, or committed as, evidence
+    sub = 'evidence' if repo.REPO == '/repo' else os.path.join('.work', 'evidence-scratch')
+    path = os.path.join(repo.VERIF, sub, prop_id + '.json')
     os.makedirs(os.path.dirname(path), exist_ok=True)
     doc = {
         'property_id': prop_id,
